@@ -205,3 +205,33 @@ def caller_snapshot(c):
     c.ensure('no-exception', 'raised is None')
     c.ensure('each-once-in-order', "tuple(n for n in calls('cb')) == ('cb0', 'cb1', 'cb2')")
     c.ensure('arguments-passed', "all(e[1] == (x, 7) for e in trace if e[0].startswith('cb'))")
+
+
+@contract('C07', 'crazyflie-api.registration', [CF + ':Crazyflie.add_header_callback', CF + ':Crazyflie.remove_header_callback', CF + ':Crazyflie.add_port_callback',
+                                                CF + ':Crazyflie.remove_port_callback', CF + ':_IncomingPacketHandler.add_port_callback'],
+          clause='registrations made through the Crazyflie object carry exactly the given port / port mask / channel / channel mask / callback, and '
+                 'removing with the same arguments removes exactly that registration (deliveries stop for that registration only)')
+def api_registration(c):
+    cf = c.new(CF + ':Crazyflie')
+    c.let('cf', cf)
+    n0 = c.concretize('len(cf.incoming.cb)')
+    c.int('port', 0, 255), c.int('pm', 0, 255), c.int('ch', 0, 255), c.int('cm', 0, 255), c.int('port2', 0, 15)
+    cb, cb2 = c.ext('cb'), c.ext('cb2')
+    use_defaults = c.choice('default_masks', [False, True])
+    if use_defaults:
+        c.call((cf, 'add_header_callback'), cb, c.get('port'), c.get('ch'))
+        c.let('epm', 0xFF), c.let('ecm', 0xFF)
+    else:
+        c.call((cf, 'add_header_callback'), cb, c.get('port'), c.get('ch'), c.get('pm'), c.get('cm'))
+        c.let('epm', c.get('pm')), c.let('ecm', c.get('cm'))
+    c.ensure('header-registration-stored-as-given', 'raised is None and len(cf.incoming.cb) == %d and tuple(cf.incoming.cb[-1]) == (port, epm, ch, ecm, cb)' % (n0 + 1))
+    c.call((cf, 'add_port_callback'), c.get('port2'), cb2)
+    c.ensure('port-registration-matches-every-channel', 'raised is None and len(cf.incoming.cb) == %d and tuple(cf.incoming.cb[-1]) == (port2, 0xFF, 0, 0, cb2)' % (n0 + 2))
+    c.snapshot('before', 'tuple(cf.incoming.cb)')
+    if use_defaults:
+        c.call((cf, 'remove_header_callback'), cb, c.get('port'), c.get('ch'))
+    else:
+        c.call((cf, 'remove_header_callback'), cb, c.get('port'), c.get('ch'), c.get('pm'), c.get('cm'))
+    c.ensure('same-arguments-remove-exactly-that-registration', 'raised is None and tuple(cf.incoming.cb) == before[:%d] + before[%d:]' % (n0, n0 + 1))
+    c.call((cf, 'remove_port_callback'), c.get('port2'), cb2)
+    c.ensure('port-registration-removed', 'raised is None and tuple(cf.incoming.cb) == before[:%d]' % n0)
